@@ -35,8 +35,10 @@ def P(rule, exc, k, min_len=7, max_len=25, min_mw=MW):
     return dict(rule=rule, exc=exc, k=k, min_mw=min_mw, min_len=min_len, max_len=max_len)
 PARAMS = [P('trypsin', 'auto', 2), P('trypsin', 'trypsin_exception', 2), P('lysc', 'auto', 1)]
 # sampled-sequence stream: parameter sets that differ from P0 in exactly one compared field
-EXTRA = [P('trypsin', 'auto', 1), P('trypsin', 'auto', 2, min_len=8), P('trypsin', 'auto', 2, max_len=26),
-         P('trypsin', 'auto', 2, min_mw=501.00005), P('trypsin', 'off', 2), P('lysc', 'auto', 2)]
+EXTRA = [P('trypsin', 'auto', 1), P('trypsin', 'auto', 3), P('trypsin', 'auto', 2, min_len=8), P('trypsin', 'auto', 2, min_len=6),
+         P('trypsin', 'auto', 2, max_len=26), P('trypsin', 'auto', 2, max_len=24),
+         P('trypsin', 'auto', 2, min_mw=546.00005), P('trypsin', 'auto', 2, min_mw=546.90005),   # same integer part
+         P('trypsin', 'off', 2), P('lysc', 'auto', 2)]
 # ('off' is not a rule name: the implementation compiles it as a literal regex that cannot match an upper-case sequence, i.e. trypsin
 #  without the exception; the empty string would be the regex that matches everywhere -- C10's domain, not used here)
 
@@ -69,12 +71,23 @@ def enc_ver(v):
     return [v[0], v[1], v[2]]
 
 def world_proteins(world):
+    """[sequence as written to the proteome FASTA, cds_start_NF] per coding transcript"""
     out = []
+    ov = world.get('prot_override') or {}
     for gene in world['genes']:
         for tx in gene['transcripts']:
             if tx['cds']:
-                out.append([G.protein_of(world, gene, tx), 'cds_start_NF' in tx['tags']])
+                out.append([ov.get(tx['id'], G.protein_of(world, gene, tx)), 'cds_start_NF' in tx['tags']])
     return out
+
+def coding_ids(world):
+    return [tx['id'] for gene in world['genes'] for tx in gene['transcripts'] if tx['cds']]
+
+# One designed protein makes every pair of parameter sets below differ in its pool (trypsin):
+#   GGGGAGK 502.3 Da (between 500 and 546) | GASGAGK 546.57 Da, 7 aa (between 546.0 and 546.9; min_length 7/8)
+#   FWGAGK 6 aa (min_length 6/7) | A*24+K 25 aa, A*25+K 26 aa (max_length 24/25/26) | runs of short fragments
+#   (miscleavage 1/2/3) | CK|D (trypsin_exception vs none)
+DESIGNED = 'MGHK' + 'GGGGAGK' + 'GASGAGK' + 'FWGAGK' + 'A' * 24 + 'K' + 'A' * 25 + 'K' + 'GASGAGK' + 'AAAAAACKDAAAAAAAR' + 'GHGHGHK'
 
 class Digests:
     """expected pool digest for (reference id, resolved parameter tuple), from C10's model"""
@@ -218,7 +231,9 @@ def statement_failures(case, obs_list, digests, real, minimal):
                     bad.append('step %d: load with parameters %s returned a pool that is not the canonical pool of those '
                                'parameters on reference %s (it is the pool of %s)' % (i, rp, cur_ref, owner or 'nothing known'))
                 if l['genome'] != cur_ref or l['proteome'] != cur_ref or not l['tx']:
-                    bad.append('step %d: reference data loaded back differ from what the last generateIndex saved' % i)
+                    what = [k for k in ('genome', 'proteome') if l[k] != cur_ref] + ([] if l['tx'] else ['annotation'])
+                    bad.append('step %d: %s loaded back through load_references differ(s) from what generateIndex was given '
+                               '(reference %s; got %s)' % (i, ' and '.join(what), cur_ref, [l[k] for k in ('genome', 'proteome')]))
             else:
                 if usable and rp in have:
                     bad.append('step %d: pool for %s was created by this history but load raised %s' % (i, rp, l['exc']))
@@ -241,18 +256,46 @@ def statement_failures(case, obs_list, digests, real, minimal):
 
 # ----------------------------------------------------------------------------- worlds
 def pick_worlds(rng, n=2):
-    """reference worlds whose pools separate the parameter sets and the references, and on which the
-    trypsin exception matters (so a pool built without it is visibly different)"""
+    """reference worlds whose pools separate ALL parameter sets (PARAMS + EXTRA, each differing from P0 or
+    from its neighbour in one field, minimally) and the references; the trypsin exception matters.  World 0
+    carries the designed protein and a protein with leading X; world 1 a leading X and an inner '*'
+    (the stored proteome must keep them as given while the pool builder strips / cuts them)."""
+    allp = [PARAMS[0], PARAMS[2]] + EXTRA
     for _ in range(400):
         worlds = [G.gen_world(rng, small=True, coding_p=0.9, bias='KRKRPMWDEFLCHYCKDRRH') for _ in range(n)]
+        ids = [coding_ids(w) for w in worlds]
+        if any(len(i) < 2 for i in ids):
+            continue
+        for wi, w in enumerate(worlds):
+            prots = dict(zip(ids[wi], [p for p, _ in world_proteins(w)]))
+            ov = {}
+            if wi == 0:
+                ov[ids[wi][0]] = DESIGNED
+                ov[ids[wi][1]] = 'XX' + prots[ids[wi][1]]
+            else:
+                ov[ids[wi][0]] = 'X' + prots[ids[wi][0]]
+                q = prots[ids[wi][1]]
+                ov[ids[wi][1]] = q[:max(1, len(q) * 2 // 3)] + '*' + q[max(1, len(q) * 2 // 3):]
+            w['prot_override'] = ov
         D = Digests(worlds)
-        keys = [(r, resolved(p)) for r in range(n) for p in (PARAMS[0], PARAMS[2])]
-        raw = [(r, ('trypsin', None, 2, mw5(PARAMS[0]), 7, 25)) for r in range(n)]
-        D.need(keys + raw)
-        vals = [D.tab[k] for k in keys + raw]
+        keys0 = [(0, resolved(p)) for p in allp]
+        keys = keys0 + [(r, resolved(p)) for r in range(1, n) for p in (PARAMS[0], PARAMS[2])]
+        D.need(keys)
+        vals = [D.tab[k] for k in keys]
         if len(set(vals)) == len(vals) and all(D.size[k] > 3 for k in keys):
             return worlds, D
     raise RuntimeError('no separating worlds found')
+
+def gen_pair_cases(worlds, wid):
+    """every ordered pair (a, b) of parameter sets: generate a, add b, overwrite a, overwrite b"""
+    allp = PARAMS + EXTRA
+    cases = []
+    for a in range(len(allp)):
+        for b in range(len(allp)):
+            if a != b:
+                cases.append(dict(kind='seq', worlds=worlds, params=[allp[a], allp[b]], other=False, wid=wid,
+                                  ops=[['g', 0, 0, False], ['u', 1, False], ['u', 0, True], ['u', 1, True]]))
+    return cases
 
 def alphabet(n_ref=2, n_par=3):
     a = []
@@ -409,12 +452,38 @@ def gen_symlink_cases(worlds, wid, depth):
             cases.append(dict(kind='seq', worlds=worlds, params=PARAMS, ops=ops, other=False, wid=wid))
     return cases
 
+def edit_proteome(rng, w):
+    """proteome entries as real reference proteomes have them: leading X (incomplete 5' end), inner '*'"""
+    ov, kinds = {}, []
+    for (p, _), tid in zip(world_proteins(w), coding_ids(w)):
+        r = rng.random()
+        if r < 0.3:
+            ov[tid] = 'X' * rng.randint(1, 3) + p
+            kinds.append('X')
+        elif r < 0.5 and len(p) > 3:
+            k = rng.randint(1, len(p) - 1)
+            ov[tid] = p[:k] + '*' + p[k:]
+            kinds.append('*')
+        elif r < 0.6 and len(p) > 3:
+            k = rng.randint(1, len(p) - 1)
+            ov[tid] = 'X' * rng.randint(1, 2) + p[:k] + '*' + p[k:]
+            kinds.append('X*')
+    if ov:
+        w['prot_override'] = ov
+    return kinds
+
 def run_ref(ctx, n, vio, stats):
     rng = ctx.rng
     cases = []
+    hist = {}
     for i in range(n):
         w = G.gen_world(rng, small=(i % 3 != 0), coding_p=rng.choice([0.5, 0.7, 0.9]))
-        cases.append(dict(kind='ref', world=w, symlink=(i % 4 == 3)))
+        kinds = edit_proteome(rng, w) if i % 5 != 4 else []
+        flag = rng.random() < 0.4
+        for k in set(kinds) or {'plain'}:
+            key = k + ('/invalid-as-noncoding' if flag else '')
+            hist[key] = hist.get(key, 0) + 1
+        cases.append(dict(kind='ref', world=w, symlink=(i % 4 == 3), invalid_as_noncoding=flag, then_update=(i % 2 == 1)))
     res = I.run_cases('c12', cases, jobs=ctx.jobs, tag='c12r')
     for c, r in zip(cases, res):
         if '__exc__' in r or r['out'] != 'ok' or r['diffs']:
@@ -422,8 +491,7 @@ def run_ref(ctx, n, vio, stats):
         else:
             stats['ref_tx'] += r['n_tx']
             stats['ref_coding'] += r['n_coding']
-            if r['coding_vs_truth'] != [[], []]:
-                stats['ref_coding_vs_truth_diff'] += 1
+    stats['ref_kinds'] = hist
     return len(cases)
 
 def run_ver(ctx, worlds, real, vio, stats):
@@ -509,7 +577,9 @@ def load_corpus():
 
 def finish(vio):
     violations = []
-    for c, f in vio['fail'][:8]:
+    # smallest inputs first (reference round-trip cases carry record-level messages and have no op list)
+    order = sorted(range(len(vio['fail'])), key=lambda i: (len(vio['fail'][i][0].get('ops', [])), i))
+    for c, f in [vio['fail'][i] for i in order][:8]:
         c = {k: v for k, v in c.items() if k not in ('wid', '_file')}
         violations.append({'what': 'C12 violated: %s | ops=%s' % ('; '.join(f[:3])[:500], json.dumps(c.get('ops', c.get('recorded', c.get('kind'))))[:200]),
                            'replay_obj': {'kind': 'case', 'case': c, 'failures': f[:10]}, 'no_input': False})
@@ -555,6 +625,13 @@ def run(ctx):
     vio['disagree'] += dis
     vio['fail'] += fl
     n += sum(len(c['ops']) for c in seqs)
+    # every ordered pair of parameter sets (minimal one-field differences included)
+    pairs = gen_pair_cases(worlds, 'w0')
+    dis, fl = check_sequences(ctx, pairs, ds, real, minimal, stats, tag='c12q')
+    vio['disagree'] += dis
+    vio['fail'] += fl
+    n += sum(len(c['ops']) for c in pairs)
+    stats['pair_sequences'] = len(pairs)
     # --gtf-symlink histories (the model ignores the flag: a symlinked GTF must behave like a copy)
     syms = gen_symlink_cases(worlds, 'w0', 3 if ctx.quick else 4)
     if ctx.quick:
@@ -581,7 +658,8 @@ def run(ctx):
                 samples=samples, distribution={'outcomes': stats['outcomes'], 'max_pools_in_history': stats['max_pools'],
                                                'version_stream_model_codes': stats['ver'],
                                                'ref_roundtrip': {'transcripts': stats['ref_tx'], 'coding': stats['ref_coding'],
-                                                                 'worlds_where_coding_set_differs_from_cds_presence': stats['ref_coding_vs_truth_diff']}},
+                                                                 'worlds_by_proteome_edit': stats.get('ref_kinds', {})},
+                                               'pair_sequences': stats.get('pair_sequences', 0)},
                 disagreements=len(vio['disagree']), statement_failures=len(vio['fail']), violations=violations,
                 real_environment=real, minimal_version=minimal,
                 assumptions=['min_mw values are decimal literals (float equality of equal literals is exact); the digestion threshold is off the 1e-4 mass grid',
@@ -644,21 +722,24 @@ def search_failing_input(ctx, broken):
     worlds, D = pick_worlds(x.rng)
     real = get_real(x, worlds)
     # statement only (the model may not even build): observe the implementation, evaluate the statement.
-    # (a) pairs of parameter sets differing in one compared field
-    allp = PARAMS + EXTRA
-    pair_cases = []
-    for a in range(len(allp)):
-        for b in range(len(allp)):
-            if a != b:
-                pair_cases.append(dict(kind='seq', worlds=worlds, params=[allp[a], allp[b]], other=False,
-                                       ops=[['g', 0, 0, False], ['u', 1, False], ['u', 0, True], ['u', 1, True]]))
+    # (a) every ordered pair of parameter sets (minimal one-field differences included)
+    pair_cases = [{k: v for k, v in c.items() if k != 'wid'} for c in gen_pair_cases(worlds, 'w0')]
     res = I.run_cases('c12', pair_cases, jobs=ctx.jobs, tag='c12o')
     for c, r in zip(pair_cases, res):
         if isinstance(r, dict) and 'steps' in r:
             f = statement_failures(c, r['steps'], D, real, minimal)
             if f:
                 return {'kind': 'case', 'case': c, 'failures': f[:10], 'what': '; '.join(f[:2])[:400]}
-    # (b) the length-3 tree
+    # (b) recorded versions that are too old / foreign must be rejected by every consumer
+    for rec in (['<same>', '<same>', '1.2.9'], ['<same>', '<same>', '0.11.5'], ['3.11.4', '<same>', '<same>'], ['<same>', '1.80', '<same>'],
+                ['<same>', '<same>', '1.3']):
+        c = dict(kind='ver', world=worlds[0], params=[PARAMS[0], PARAMS[2]], recorded=rec)
+        r = I.run_cases('c12', [c], jobs=1, tag='c12o')[0]
+        used = {k: v for k, v in (r.get('consumers') or {}).items() if v in ('ok', 'SystemExit:1')}
+        if used:
+            return {'kind': 'case', 'case': c, 'failures': ['recorded version %s accepted by %s' % (r.get('recorded'), sorted(used))],
+                    'what': 'an index recorded for %s (running: %s) is used by %s' % (r.get('recorded'), r.get('real'), sorted(used))}
+    # (c) the length-3 tree
     alpha = alphabet()
     cases = [dict(kind='tree', worlds=worlds, params=PARAMS, alphabet=alpha, prefix=[a, b], depth=3, other=False)
              for a in range(len(alpha)) for b in range(len(alpha))]
